@@ -704,3 +704,12 @@ for _p in (C01, C02, C03, C04, C11, C12, C14):
 C04.rule += (" Tokens made of characters that mean something to formatting / pattern / shell machinery ({}, {0}, %s, %n, backslash, $(x), .*, [a, quotes, "
              "control characters) in every role: unknown long name, unknown letter, inside a bundle, =value, separate value, positional, behind --.")
 C13.rule += " The first named group is called like the heading of the default group ('arguments'): a different group."
+
+
+def c12_extract():
+    return extract.extract_positional_index()
+
+
+C12.extract = c12_extract
+C12.extra_trusted = ["translator vlib/extract.py (clang 14 JSON AST of arguments::get(int) -> Generated/PosIndex.lean; int is 32 bits, size_type 64)"]
+C12.theorem_hint += " + source_index_bits, model_index_is_source (the model's unbounded index arithmetic is the header's 32/64-bit arithmetic for every int and every list below 2^31 elements)"
